@@ -94,10 +94,10 @@ _above = st.sampled_from([0.0, 0.0, 2.0 ** -20, -2.0 ** -20])
 POSFORMS = st.sampled_from(['array'] * 7 + ['readonly'] * 2 + ['frombuffer', 'memmap', 'fortran', 'strided', 'list', 'tuple', 'narrow', 'narrow'])
 DYADIC_POSFORMS = st.sampled_from(['array'] * 3 + ['float32'] + ['readonly', 'frombuffer', 'list', 'strided'] + ['narrow'] * 5)
 WHOLE_POSFORMS = st.sampled_from(['intarray'] * 3 + ['intlist'] * 2 + ['inttuple', 'float32', 'readonly', 'list', 'strided'] + ['array'] * 2
-                                 + ['narrow'] * 8)
+                                 + ['narrow'] * 12)
 CUTFORMS = st.sampled_from(['float'] * 3 + ['npfloat'])
 DYADIC_CUTFORMS = st.sampled_from(['float'] * 3 + ['npfloat'] + ['narrow'] * 2)
-WHOLE_CUTFORMS = st.sampled_from(['float', 'npfloat', 'int', 'int', 'npint', 'narrow', 'narrow', 'narrow'])
+WHOLE_CUTFORMS = st.sampled_from(['float', 'npfloat', 'int', 'int', 'npint'] + ['narrow'] * 5)
 SIZEFORMS = st.sampled_from(['int'] * 6 + ['npint64', 'npint32'] * 2 + ['npint8', 'npuint8', 'npint16', 'npuint16', 'npuint32', 'npuint64'])
 GENERIC_CUTFORMS = st.sampled_from(['float'] * 6 + ['npfloat'] * 2 + ['narrow'])
 _narrow = st.integers(0, 59)
@@ -146,8 +146,11 @@ def narrow_pos_dtypes(pos0):
 def narrow_pos_dtype(pos0, k):
     cand = narrow_pos_dtypes(pos0)
     k = int(k)
-    if len(cand) > 1 and k % 6:
-        cand = cand[1:]                   # where a narrower dtype holds the numbers it is preferred (5 of 6) to big-endian float64
+    ints = [dt for dt in cand if np.dtype(dt).kind in 'iub']
+    if ints and k % 6 in (1, 2, 3, 4):
+        cand = ints                       # whole numbers: an integer dtype 4 times of 6 ...
+    elif len(cand) > 1 and k % 6:
+        cand = [dt for dt in cand[1:] if dt not in ints] or cand[1:]    # ... a narrower float where one holds the numbers, big-endian float64 once
     return cand[(k // 6) % len(cand)]
 
 
@@ -158,7 +161,13 @@ def narrow_cut_types(cutoff):
 
 def narrow_cut_type(cutoff, k):
     cand = narrow_cut_types(cutoff)
-    return cand[int(k) % len(cand)]
+    k = int(k)
+    ints = [t for t in cand if np.dtype(t).kind in 'iu']
+    if ints and k % 6 in (1, 2, 3, 4):
+        cand = ints
+    elif len(cand) > 1 and k % 6:
+        cand = [t for t in cand[1:] if t not in ints] or cand[1:]
+    return cand[(k // 6) % len(cand)]
 
 
 # ----------------------------------------------------------------------------- exact symmetry images of a cell
